@@ -639,15 +639,18 @@ Fixpoint foreign (l : list obj) : list felem :=
   | OLeaf g d :: r => if foreign_raw (g, d) then FTop (g, d) :: foreign r else foreign r
   | OExt fx ch :: r => FExt fx (filter foreign_raw ch) :: foreign r
   end.
-(* the reloaded form of a placement: what ASF.load returns for a file written from it *)
+(* the reloaded form of a placement: what ASF.load returns for a file written from it
+   (the ContentDescription object stores its five fields in the fixed order of CD_NAMES) *)
+Definition cd_sorted (P : placement) : list attr :=
+  flat_map (fun n => match find (fun a => list_eqb (a_name a) n) (p_cd P) with Some a => [a] | None => [] end) CD_NAMES.
 Definition reload_attrs (P : placement) : list attr :=
-  map (fun a => mkA (a_name a) (a_val a) None None) (p_cd P) ++
+  map (fun a => mkA (a_name a) (a_val a) None None) (cd_sorted P) ++
   map (fun a => mkA (a_name a) (a_val a) None None) (p_ecd P) ++
   map (fun a => mkA (a_name a) (a_val a) None (Some (oz (a_stream a)))) (p_m P) ++
   map (fun a => mkA (a_name a) (a_val a) (Some (oz (a_lang a))) (Some (oz (a_stream a)))) (p_ml P).
 (* the independent reading of a placement *)
 Definition placed_tags (P : placement) : list ltag * list ltag * list ltag * list ltag :=
-  (map (fun a => mkT 0 (a_name a) 0 0 (a_val a)) (p_cd P),
+  (map (fun a => mkT 0 (a_name a) 0 0 (a_val a)) (cd_sorted P),
    map (fun a => mkT 1 (a_name a) 0 0 (a_val a)) (p_ecd P),
    map (fun a => mkT 2 (a_name a) 0 (oz (a_stream a)) (a_val a)) (p_m P),
    map (fun a => mkT 3 (a_name a) (oz (a_lang a)) (oz (a_stream a)) (a_val a)) (p_ml P)).
